@@ -56,6 +56,17 @@ def evaluate(t, leaf):
             return max(evaluate(args[0], leaf), evaluate(args[1], leaf))
         if re.search(r"::abs$", n) and len(args) == 1:
             return abs(evaluate(args[0], leaf))
+        if re.search(r"RangeInclusive<.*>::contains$|RangeInclusive::<.*>::contains$|ops::Range.*::contains$", n) and len(args) == 2:
+            rng = args[0]
+            while rng[0] == "call" and rng[2] and len(rng[2]) == 1:
+                rng = rng[2][0]
+            x = evaluate(args[1], leaf)
+            if rng[0] == "call" and rng[1] and re.search(r"RangeInclusive::<.*>::new$|RangeInclusive<.*>::new$", rng[1]) and len(rng[2]) == 2:
+                return int(evaluate(rng[2][0], leaf) <= x <= evaluate(rng[2][1], leaf))
+            if rng[0] == "agg" and len(rng[2]) >= 2:
+                lo, hi = evaluate(rng[2][0], leaf), evaluate(rng[2][1], leaf)
+                return int(lo <= x <= hi) if "Inclusive" in str(rng[1]) else int(lo <= x < hi)
+            raise NotEvaluable(t)
         if re.search(r"PartialEq(<.*>)?>?::(eq|ne)$", n) and len(args) == 2:
             a, b = evaluate(args[0], leaf), evaluate(args[1], leaf)
             return int((a == b) == n.endswith("eq"))
